@@ -78,7 +78,7 @@ def as_batch(chunk, form, k=0):
     return list(chunk)
 
 
-def run_single_history(values, minimize, batches, rec, tag, form="list", number_form=None):
+def run_single_history(values, minimize, batches, rec, tag, form="list", number_form=None, prescored=False):
     from geneticengine.evaluation.sequential import SequentialEvaluator
     from geneticengine.evaluation.tracker import SingleObjectiveProgressTracker
     from geneticengine.problems import SingleObjectiveProblem
@@ -91,6 +91,10 @@ def run_single_history(values, minimize, batches, rec, tag, form="list", number_
     spy = _mk_recorder()
     tracker = SingleObjectiveProgressTracker(problem, SequentialEvaluator(), recorders=[spy])
     inds = [Individual((i, v), rep) for i, v in enumerate(values)]
+    if prescored:
+        from vk.values import prescore
+
+        run_single_history.keepalive = prescore(inds, minimize)
     # reference fold
     ref_best = None
     ref_flags = []
@@ -218,7 +222,7 @@ class RandomHistories(Facet):
         rec.label("kind:" + case["kind"])
         rec.sample(case, limit=2)
         if case["kind"] == "single":
-            run_single_history(case["values"], case["minimize"], case["batches"], rec, "generated", case.get("form", "list"), case.get("number_form"))
+            run_single_history(case["values"], case["minimize"], case["batches"], rec, "generated", case.get("form", "list"), case.get("number_form"), len(case["values"]) % 3 == 2)
             if _nontrivial_history(case["values"], case["minimize"]):
                 rec.nontrivial(case)
             return
